@@ -21,6 +21,10 @@ def dfa_src_tasks(k, S, parts, stride=1, pools=(0,), **extra):
 
 
 def build_dfa(src):
+    return U.reorder_delta(_build_dfa(src), src)
+
+
+def _build_dfa(src):
     if src["kind"] == "exh_dfa":
         D = U.dfa_from_code(src["k"], src["S"], src["code"])
     elif src["kind"] == "rnd_dfa":
@@ -38,6 +42,31 @@ def build_dfa(src):
         D = U.random_dfa(rng, k, rng.choice(["a", "ab"]))
         hint, first = rng.choice([("q", 0), ("q", 1), ("trap", 1), ("P", 1)])
         return U.rename_fa(D, {"s%d" % i: "%s%d" % (hint, first + i) for i in range(k)})
+    elif src["kind"] == "cyclic_dfa":
+        # 5-7 states, two symbols, TWO accepting states and cycles among the non-accepting ones; states and symbols
+        # named by random letters: depth-first algorithms with a memo meet the cycles in name-dependent orders
+        rng = random.Random(src["seed"])
+        from gambatools.dfa import DFA
+        if src["seed"] % 3 == 0:
+            # the shape a memoised depth-first search gets wrong for some orders of Sigma and F: w on a non-accepting
+            # cycle w -> u -> w with a second branch w -> x -> accepting; a second accepting state g that reaches
+            # accepting states only through u (roles named by random letters, small random variations)
+            f0, w, u, x, g = rng.sample("fghjklmnpqrstuvw", 5)
+            a, b = rng.sample("abcdxyz", 2)
+            delta = {(f0, a): w, (f0, b): w, (w, a): u, (w, b): x, (u, a): w, (u, b): rng.choice([u, w]),
+                     (x, a): rng.choice([f0, g]), (x, b): rng.choice([g, f0]), (g, a): u, (g, b): u}
+            return DFA({f0, w, u, x, g}, {a, b}, delta, rng.choice([f0, w]), {f0, g})
+        k = rng.randint(5, 7)
+        sy = rng.sample("abcdxyz", 2)
+        names = rng.sample("fghjklmnpqrstuvw", k)
+        acc = names[:2]
+        delta = {}
+        for q in names:
+            for a in sy:
+                # accepting states are entered rarely, so that most paths run through non-accepting cycles
+                delta[q, a] = rng.choice(names[2:] * 3 + acc)
+        from gambatools.dfa import DFA
+        return DFA(set(names), set(sy), delta, rng.choice(names), set(acc))
     elif src["kind"] == "late_split_dfa":
         return U.late_split_dfa(random.Random(src["seed"]))
     else:
@@ -65,6 +94,9 @@ def dfa_srcs(task):
     elif task["kind"] == "late_split_dfa":
         for i in range(task["count"]):
             yield {"kind": "late_split_dfa", "seed": task["seed"] * 100000 + i}
+    elif task["kind"] == "cyclic_dfa":
+        for i in range(task["count"]):
+            yield {"kind": "cyclic_dfa", "seed": task["seed"] * 100000 + i}
     elif task["kind"] == "rnd_dfa":
         for i in range(task["count"]):
             yield {"kind": "rnd_dfa", "seed": task["seed"] * 100000 + i, "pool": i % 6, "perm": i % 11,
@@ -80,6 +112,10 @@ def nfa_src_tasks(k, S, parts, stride=1, **extra):
 
 
 def build_nfa(src):
+    return U.reorder_delta(_build_nfa(src), src)
+
+
+def _build_nfa(src):
     if src["kind"] == "exh_nfa":
         return U.nfa_from_code(src["k"], src["S"], src["code"], src["eps"], prefix=src.get("prefix", "s"))
     rng = random.Random(src["seed"])
